@@ -8,15 +8,16 @@ import (
 	"net/http/httptest"
 	"strings"
 	"sync"
+	"time"
 )
 
 // IdpAnswer is one scripted answer of the fake identity provider.
 type IdpAnswer struct {
-	Status   int    `json:"status"`           // HTTP status (0 = 200)
-	Body     string `json:"body"`             // raw body
-	Close    bool   `json:"close,omitempty"`  // close the connection without answering
-	CutAt    int    `json:"cut_at,omitempty"` // >0: declare the full Content-Length but send only CutAt bytes, then close
-	CT       string `json:"ct,omitempty"`     // content type (default application/json)
+	Status int    `json:"status"`           // HTTP status (0 = 200)
+	Body   string `json:"body"`             // raw body
+	Close  bool   `json:"close,omitempty"`  // close the connection without answering
+	CutAt  int    `json:"cut_at,omitempty"` // >0: declare the full Content-Length but send only CutAt bytes, then close
+	CT     string `json:"ct,omitempty"`     // content type (default application/json)
 }
 
 // IdpCall is one request the fake identity provider received.
@@ -36,6 +37,7 @@ type FakeIdP struct {
 	calls  []IdpCall
 	// Auto: when an endpoint has no scripted answer, answer from the token table below
 	Tokens map[string]*TokenInfo // access or refresh token -> info
+	delay  time.Duration         // every call is held this long before it is answered (widens overlaps)
 }
 
 // TokenInfo is what the fake IdP knows about a token family.
@@ -56,6 +58,20 @@ func NewFakeIdP() *FakeIdP {
 
 // Close stops it.
 func (f *FakeIdP) Close() { f.Srv.Close() }
+
+// SetDelay holds every call for d before answering.
+func (f *FakeIdP) SetDelay(d time.Duration) {
+	f.mu.Lock()
+	f.delay = d
+	f.mu.Unlock()
+}
+
+// SetToken registers what the IdP knows about an access / refresh token.
+func (f *FakeIdP) SetToken(tok string, ti *TokenInfo) {
+	f.mu.Lock()
+	f.Tokens[tok] = ti
+	f.mu.Unlock()
+}
 
 // Host is host:port.
 func (f *FakeIdP) Host() string { return strings.TrimPrefix(f.Srv.URL, "http://") }
@@ -130,7 +146,11 @@ func (f *FakeIdP) serve(w http.ResponseWriter, r *http.Request) {
 	if !ok {
 		a = f.auto(ep, c)
 	}
+	d := f.delay
 	f.mu.Unlock()
+	if d > 0 {
+		time.Sleep(d)
+	}
 	if a.Close {
 		if hj, ok := w.(http.Hijacker); ok {
 			if conn, _, err := hj.Hijack(); err == nil {
